@@ -405,3 +405,6 @@ m('C02-m5', 'C02', W + 'store.rs', """                // cas value present, we c
                 (false, current != &val, ValueEntry::Cas(val, v + 1))""", 'C02.a')
 m('C07-m4', 'C07', W + 'worterbuch.rs', '        self.ls_subscriptions.insert(subscription_id, path);', '        let _ = (subscription_id, path);', 'C07.e')
 m('C06-m5', 'C06', W + 'worterbuch.rs', '        self.store.lock(client_id, path)?;', '        self.store.lock(client_id, path).ok();', 'C06.f')
+m('C16-m3', 'C16', W + 'worterbuch.rs', """        if !self.deleted_buffer.is_empty() {
+            self.send_deleted_event().await?;""", """        if self.deleted_buffer.is_empty() {
+            self.send_deleted_event().await?;""", 'C16.b')
